@@ -151,5 +151,8 @@ func (s *StatisticalAnalysis) Quantile(p float64) float64 {
 		return 0.0
 	}
 	idx := int(float64(len(s.orderedValues)) * p)
+	if idx >= len(s.orderedValues) {
+		idx = len(s.orderedValues) - 1
+	}
 	return s.orderedValues[idx]
 }
